@@ -292,7 +292,9 @@ def guard_class(ty):
         v = m.group(1)
         # an operator / function registry: values are handlers, a configuration record of this crate's
         # operator module, or a bare generic parameter (helper generic over the value type)
-        if 'dyn std::ops::Fn' in v or v.startswith('operator::') or v.startswith('function::') or re.match(r'^[A-Z]\w{0,2}[>,]', v):
+        if 'dyn std::ops::Fn' in v or v.startswith('operator::') or v.startswith('function::') or re.match(r'^[A-Z]\w{0,2}[>,]', v) \
+                or re.match(r'^<\w+ as (operator|function)::[\w:]+>::\w+[>,]', v):
+            # (last form: the entry type of a registry trait, `<Self as operator::Registry>::Entry`, in a default method)
             return 'REGISTRY'
     return 'OTHER'
 
@@ -445,7 +447,9 @@ class Program:
                     self.callback_sites.append(c)
                 else:
                     self.ext_calls[body.id].append(c)
+        self.conv_targets = {}      # (body, bb) of an Into::into / TryInto::try_into call -> the local From / TryFrom impl it runs
         self._generic_edges()
+        self._trait_default_edges()
         # closure-argument edges: a closure passed to a call is assumed invoked by the creator
         # at that call site
         self.closure_call_sites = {}   # closure uid -> [Call]  (the external call that runs it)
@@ -556,14 +560,39 @@ class Program:
                     self.generic_callbacks.add((body.id, c.bb))
                     self.callback_sites.append(c)
                     continue
+                # no call-graph edge body -> target: each caller already has the edge "caller -> the closure it passes"
+                # (a closure runs at the call site it is handed to), and adding the union here would make every caller
+                # of the helper reach every other caller's closure.  Rules that need "what runs *here*" (locks held in
+                # this body) read generic_cb_targets.
                 self.generic_cb_targets[(body.id, c.bb)] = targets
-                for tu in targets:
-                    self.edges[body.id].add(tu)
-                    self.edge_sites.setdefault((body.id, tu), []).append(c)
 
     def _publicly_reachable(self, body):
         """can code outside the crate name this fn? (pub item of a pub type; approximated by `pub`)"""
         return bool(body.is_pub)
+
+    def _trait_default_edges(self):
+        """a local generic body (a trait's default method, a `fn f<T: Trait>`) that calls a method of a local trait
+        on its generic type: the call has no single callee; it may enter every local impl of that method"""
+        self.trait_targets = {}
+        impls = {}
+        for b in self.bodies:
+            if b.impl_trait:
+                impls.setdefault((b.impl_trait.split('<')[0], b.name.split('::')[-1]), []).append(b)
+        for body in self.bodies:
+            for c in list(self.ext_calls[body.id]):
+                if not c.fn or not c.fn.get('local') or c.fn['resolved'].get('kind') not in ('unresolved', 'error', None):
+                    continue
+                tr = (c.fn.get('trait') or '').split('<')[0]
+                if not tr:
+                    continue
+                meth = (c.callee or '').split('::')[-1]
+                tg = impls.get((tr, meth), [])
+                if not tg:
+                    continue
+                self.trait_targets[(body.id, c.bb)] = [t.id for t in tg]
+                for t in tg:
+                    self.edges[body.id].add(t.id)
+                    self.edge_sites.setdefault((body.id, t.id), []).append(c)
 
     def _generic_edges(self):
         """external generic code that calls back into local trait impls: Vec<T>/Box<T>/Option<T>
@@ -579,6 +608,7 @@ class Program:
                 impls.setdefault((b.impl_trait, b.name.split('::')[-1]), []).append((adt, b))
         MAP = {
             ('std::convert::Into', 'into'): ('std::convert::From', 'from'),
+            ('std::convert::TryInto', 'try_into'): ('std::convert::TryFrom', 'try_from'),
             ('std::string::ToString', 'to_string'): ('std::fmt::Display', 'fmt'),
         }
         for body in self.bodies:
@@ -598,17 +628,35 @@ class Program:
                 fa = c.fn.get('args', [])
                 for k in keys:
                     for adt, ib in impls.get(k, []):
-                        if k == ('std::convert::From', 'from') and len(fa) >= 2:
+                        if k in (('std::convert::From', 'from'), ('std::convert::TryFrom', 'try_from')) and len(fa) >= 2:
                             # Into::into / From::from with [T, U]: only the impl <U as From<T>>
                             tref = ib.j.get('impl_trait_ref', '')
-                            T, U = (fa[0], fa[1]) if tr == 'std::convert::Into' else (fa[1] if len(fa) > 1 else '', fa[0])
+                            T, U = (fa[0], fa[1]) if tr in ('std::convert::Into', 'std::convert::TryInto') else (fa[1] if len(fa) > 1 else '', fa[0])
                             def norm(s):
                                 return re.sub(r"'\w+", "'_", s)
-                            if norm(tref) != norm('<%s as std::convert::From<%s>>' % (U, T)):
+                            if norm(tref) != norm('<%s as %s<%s>>' % (U, k[0], T)):
                                 continue
+                            self.conv_targets[(body.id, c.bb)] = ib.id
                         if re.search(r'(^|[^\w:])%s\b' % re.escape(adt), args):
                             self.edges[body.id].add(ib.id)
                             self.edge_sites.setdefault((body.id, ib.id), []).append(c)
+
+    def conv_target_of(self, c):
+        """the local `<U as From<T>>::from` / `<U as TryFrom<T>>::try_from` body an `Into::into` / `TryInto::try_into`
+        call runs (std's blanket impls just forward), or None"""
+        if not c.fn or c.fn.get('trait') not in ('std::convert::Into', 'std::convert::TryInto'):
+            return None
+        fa = c.fn.get('args', [])
+        if len(fa) < 2:
+            return None
+        want_tr = 'std::convert::From' if c.fn['trait'] == 'std::convert::Into' else 'std::convert::TryFrom'
+        meth = 'from' if want_tr.endswith('From') and not want_tr.endswith('TryFrom') else 'try_from'
+        norm = lambda x: re.sub(r"'\w+", "'_", x)
+        for b in self.bodies:
+            if b.impl_trait == want_tr and b.name.split('::')[-1] == meth:
+                if norm(b.j.get('impl_trait_ref', '')) == norm('<%s as %s<%s>>' % (fa[1], want_tr, fa[0])):
+                    return b
+        return None
 
     def is_callback(self, c):
         """a call into code the engine does not own (dyn Fn / fn pointer / generic F) — not an indirect
